@@ -840,12 +840,22 @@ func (c *Client) logs(ctx context.Context, url string, filter *glf.Filter, bm bl
 		return fmt.Errorf("rpc=eth_getLogs no rpc error but missing result")
 	}
 	var logsByTx = map[key][]logResult{}
+	var logsByIdx = map[key]struct{}{}
 	for i := range lresp.Result {
 		var (
 			blockNum = uint64(lresp.Result[i].BlockNum)
 			txIdx    = uint64(lresp.Result[i].TxIdx)
 			k        = key{blockNum, txIdx}
 		)
+		if lresp.Result[i].Log == nil {
+			return fmt.Errorf("eth_getLogs: rpc response contains invalid data. empty log")
+		}
+		ik := key{blockNum, uint64(lresp.Result[i].Idx)}
+		if _, ok := logsByIdx[ik]; ok {
+			const tag = "eth_getLogs duplicate log index. num=%d idx=%d"
+			return fmt.Errorf(tag, blockNum, ik.b)
+		}
+		logsByIdx[ik] = struct{}{}
 		if blockNum < start || blockNum >= start+limit {
 			const tag = "eth_getLogs out of range block. num=%d start=%d lim=%d"
 			return fmt.Errorf(tag, blockNum, start, limit)
